@@ -255,3 +255,21 @@ func TestReplay15ReleaseOnOptionFailure(t *testing.T) {
 	require.NoError(t, db.Close())
 	_ = os.Remove(fn)
 }
+
+// defect 17 (C15): a bitmap key of the wrong length makes preloading panic.
+func TestReplay17ShortBitmapKey(t *testing.T) {
+	fn := filepath.Join(t.TempDir(), "idx")
+	w := NewIndexWriter(fn)
+	_, _ = w.AddRow(map[string]string{"a": "1"})
+	require.NoError(t, w.Flush())
+	db, err := bbolt.Open(fn, 0600, &bbolt.Options{Timeout: time.Second})
+	require.NoError(t, err)
+	require.NoError(t, db.Update(func(tx *bbolt.Tx) error {
+		return tx.Bucket([]byte("data")).Put([]byte{'V', 1, 2, 3}, []byte{})
+	}))
+	require.NoError(t, db.Close())
+	require.NotPanics(t, func() {
+		_, err = OpenIndex(fn, WithPreloadedData())
+		require.Error(t, err)
+	})
+}
